@@ -142,7 +142,14 @@ def load_theorems(prop_id):
     if not os.path.exists(p):
         return []
     with open(p, 'r') as f:
-        return json.load(f)
+        ths = json.load(f)
+    try:
+        from .props import _extra
+        have = set(t['name'] for t in ths)
+        ths = ths + [{'name': n, 'kind': k} for n, k in _extra.EXTRA_THEOREMS.get(prop_id, []) if n not in have]
+    except ImportError:
+        pass
+    return ths
 
 
 AX_RE = re.compile(r"^'(?P<name>[^']+)' (?:depends on axioms: \[(?P<ax>[^\]]*)\]|(?P<none>does not depend on any axioms))", re.M)
